@@ -385,6 +385,7 @@ func c18(c *Ctx) {
 			r.Check(okFront, "R5.push-front", core.FuncName(f), p.Pos(f.Pos()), "the new replacement is stored at index 0 (most recent first)", "the bounded push does not place the newcomer at the front")
 		}
 	}
+	errorsExamined(c, "R6.errors-examined", "routing table", []string{"portalwire"}, "(*portalwire.Table).", "(*portalwire.tableRevalidation).", "(*portalwire.bucket).", "(*portalwire.revalidationList).")
 }
 
 func storesFalseLive(in ssa.Instruction) bool {
@@ -492,7 +493,15 @@ func classifyRemoval(c *Ctx, m *tableModel, fn *ssa.Function, ci ssa.CallInstruc
 	}
 	guards := 0
 	for _, b := range fn.Blocks {
-		if _, ok := b.Instrs[len(b.Instrs)-1].(*ssa.If); ok {
+		if ifi, ok := b.Instrs[len(b.Instrs)-1].(*ssa.If); ok {
+			// a nil test of the function's own argument is not a reason to delete something else
+			if bo, isBo := ifi.Cond.(*ssa.BinOp); isBo && (bo.Op == token.EQL || bo.Op == token.NEQ) {
+				_, px := bo.X.(*ssa.Parameter)
+				_, py := bo.Y.(*ssa.Parameter)
+				if (px && core.IsNilConst(bo.Y)) || (py && core.IsNilConst(bo.X)) {
+					continue
+				}
+			}
 			guards++
 		}
 	}
